@@ -695,6 +695,12 @@ class Typer:
         if isinstance(e, ast.Name):
             if e.id in env:
                 return env[e.id]
+            # a free name of a nested function that denotes a function defined in an enclosing scope (incl. itself)
+            scope = func
+            while scope is not None:
+                if any(g.srcname == e.id for g in scope.nested):
+                    return frozenset([("localfunc", e.id)])
+                scope = scope.outer
             return self._global_name(func, e.id)
         if isinstance(e, ast.Attribute):
             recv = ev(e.value)
@@ -1152,9 +1158,12 @@ class Typer:
                 target = self.p.modules[rel].functions[fn]
                 return CallRes("func", target, fn), self.summary(target)
             if k == "localfunc":
-                for g in func.nested:
-                    if g.srcname == a[1]:
-                        return CallRes("func", g, a[1]), self.summary(g)
+                scope = func
+                while scope is not None:
+                    for g in scope.nested:
+                        if g.srcname == a[1]:
+                            return CallRes("func", g, a[1]), self.summary(g)
+                    scope = scope.outer
                 return CallRes("unknown", None, name), TOP
             if k == "meth":
                 cn, mn = a[1].split(".", 1)
